@@ -190,24 +190,25 @@ class DagRun(irsym.ThreadRun):
             n = v.decl().name()
             if n.startswith('undef_'): return set()
             return s.sym_allowed.get(n)
-        # general term: enumerate over the (finite) value sets of its free symbols
-        syms = z3_vars(v)
-        doms = []
-        total = 1
-        for x in syms:
-            n = x.decl().name()
-            if n.startswith('undef_'): return set()
-            d = s.sym_allowed.get(n)
-            if d is None: return None
-            doms.append(sorted(d)); total *= max(len(d), 1)
-            if total > 512: return None
-        out = set()
-        import itertools
-        for combo in itertools.product(*doms):
-            r = simp(z3.substitute(v, *[(x, z3.BitVecVal(c, x.size())) for x, c in zip(syms, combo)]))
-            if not is_c(r): return None
-            out.add(r)
-        return out
+        # bit-vector operator over enumerable operands: combine the operand value sets
+        kids = v.children()
+        if kids and all(z3.is_bv(k) for k in kids):
+            sets = []
+            total = 1
+            for k in kids:
+                ks = s.enum_values(k, depth + 1, memo)
+                if ks is None: return None
+                sets.append(sorted(ks)); total *= max(len(ks), 1)
+                if total > 1024: return None
+            out = set()
+            import itertools
+            d = v.decl()
+            for combo in itertools.product(*sets):
+                r = simp(d(*[z3.BitVecVal(c, k.size()) for c, k in zip(combo, kids)]))
+                if not is_c(r): return None
+                out.add(r)
+            return out
+        return None
 
     def ite(s, c, a, b, bits):
         if isinstance(a, list) or isinstance(b, list):
@@ -225,15 +226,34 @@ class DagRun(irsym.ThreadRun):
             else: raise Unsupported('merge of values of different width')
         return simp(z3.If(c, A, Bv))
 
-    def merge(s, a, b):
+    def regbits(s, f):
+        c = s.sc.__dict__.setdefault('regbits_cache', {})
+        if f.name not in c:
+            m = {}
+            for p in f.params:
+                try: m[p.name] = s.tybits(p.ty)
+                except Unsupported: pass
+            for b in f.blocks:
+                for I in b.instrs:
+                    if I.res is None: continue
+                    try:
+                        if I.op == 'getelementptr' or I.op == 'alloca': m[I.res] = 64
+                        elif I.op == 'icmp': m[I.res] = 1
+                        elif I.ty is not None: m[I.res] = s.tybits(I.ty)
+                    except Unsupported: pass
+            c[f.name] = m
+        return c[f.name]
+
+    def merge(s, a, b, f=None):
         """merge strand b into a (same block)"""
         ga, gb = a.guard, b.guard
         if a.regs is not b.regs:
             regs = {}
+            rb = s.regbits(f) if f is not None else {}
             for k in set(a.regs) | set(b.regs):
                 if k in a.regs and k in b.regs:
                     va, vb = a.regs[k], b.regs[k]
-                    regs[k] = va if va is vb else s.ite(ga, va, vb, None)
+                    regs[k] = va if va is vb else s.ite(ga, va, vb, rb.get(k))
                 else:
                     regs[k] = a.regs[k] if k in a.regs else b.regs[k]
             a.regs = regs
@@ -592,7 +612,7 @@ class DagRun(irsym.ThreadRun):
                         else:
                             raise Unsupported('phi without incoming from %s in %s' % (bname, f.name))
                     st2.regs.update(newv)
-                    if tgt in active: active[tgt] = s.merge(active[tgt], st2)
+                    if tgt in active: active[tgt] = s.merge(active[tgt], st2, f)
                     else: active[tgt] = st2
         finally:
             s.callstack.pop(); s.depth -= 1
@@ -802,6 +822,39 @@ class DagRun(irsym.ThreadRun):
         if isinstance(r, IntT) and r.bits < w * 8 and not is_c(v): v = z3.ZeroExt(w * 8 - r.bits, v)
         s.store_(p, w, v, order, site)
 
+    def do_free(s, p, cond, site):
+        sc = s.sc
+        g = g_and(s.st.guard, cond)
+        if not s.feasible(g): return
+        if p == 0: return
+        o = s.find_obj(p)
+        if o is None or o.base != p or o.kind != 'heap':
+            s.fail('memory: delete of a pointer that is not a heap block at %s' % site, cond); return
+        if s.mode != 'private': sc.note_access(o, s.tid)
+        if s.is_shared(o):
+            saved = s.st.guard; s.st.guard = g
+            s.new_event(kind='FREE', addr=p, width=0, order='na', site='delete:' + site, obj=p)
+            s.st.guard = saved
+        else:
+            fg = s.st.freed.get(p)
+            if fg is not None and s.feasible(g_and(g, fg)): s.fail('memory: double delete at %s' % site, g_and(cond, fg))
+            s.st.freed[p] = g_or(fg if fg is not None else FALSE, cond)
+
+    def eptr_ref(s, obj, delta, site):
+        """reference count of the exception object behind an exception_ptr (atomic add on the header; last release frees)"""
+        saved = s.st.guard
+        for (o, cond) in s.possible(obj, 'exception object', site):
+            if o == 0: continue
+            g = g_and(saved, cond)
+            if not s.feasible(g): continue
+            s.st.guard = g
+            old = s.rmw(o - 32, 8, 'add' if delta > 0 else 'sub', 1, 'acq_rel', site)
+            if delta < 0:
+                last = (old == 1) if is_c(old) else z3.simplify(bv(old, 64) == z3.BitVecVal(1, 64))
+                if isinstance(last, bool): last = z3.BoolVal(last)
+                s.do_free(o - 32, last, site)
+        s.st.guard = saved
+
     def external(s, fr, name, I, site):
         args = I.args
         A = lambda i: s.val(fr, args[i])
@@ -809,21 +862,44 @@ class DagRun(irsym.ThreadRun):
         if name in ('_ZdlPv', '_ZdaPv', '_ZdlPvm', '_ZdaPvm', 'free'):
             pv = A(0)
             for (p, cond) in s.possible(pv, 'pointer', site):
-                g = g_and(s.st.guard, cond)
-                if not s.feasible(g): continue
-                if p == 0: continue
-                o = s.find_obj(p)
-                if o is None or o.base != p or o.kind != 'heap':
-                    s.fail('memory: delete of a pointer that is not a heap block at %s' % site, cond); continue
-                if s.mode != 'private': sc.note_access(o, s.tid)
-                if s.is_shared(o):
-                    saved = s.st.guard; s.st.guard = g
-                    s.new_event(kind='FREE', addr=p, width=0, order='na', site='delete:' + site, obj=p)
-                    s.st.guard = saved
-                else:
-                    fg = s.st.freed.get(p)
-                    if fg is not None and s.feasible(g_and(g, fg)): s.fail('memory: double delete at %s' % site, g_and(cond, fg))
-                    s.st.freed[p] = g_or(fg if fg is not None else FALSE, cond)
+                s.do_free(p, cond, site)
+            return None
+        if name in ('_Znwm', '_Znam', 'malloc'):
+            n = A(0)
+            if not is_c(n):
+                ps = [c for (c, cond) in s.possible(n, 'allocation size', site) if s.feasible(g_and(s.st.guard, cond))]
+                if not ps: s.st.ended = True; raise PathEnd('infeasible')
+                n = max(ps)              # the block is at least as large as any size this path can request
+            return s.malloc(n, 'new@' + (s.callstack[-1][:40] if s.callstack else '?'))
+        # ---- std::exception_ptr runtime (refcounted header in front of the exception object), cf. rt/rt.h
+        if name == '__cxa_allocate_exception':
+            n = s.concretize(A(0), site, 'size')
+            base = s.malloc(n + 32, 'exception')
+            s.priv_store(base, 8, 0) if not s.is_shared(s.find_obj(base)) else s.store_(base, 8, 0, 'na', site)
+            return base + 32
+        if name == '__cxa_init_primary_exception':
+            o = A(0)
+            return (o - 32) & MASK64 if is_c(o) else simp(o - 32)
+        if name == '__cxa_free_exception':
+            o = s.concretize(A(0), site)
+            s.do_free(o - 32, TRUE, site)
+            return None
+        if name == '_ZNSt15__exception_ptr13exception_ptrC1EPv':
+            this = A(0); obj = A(1)
+            s.store_(this, 8, obj, 'na', site)
+            s.eptr_ref(obj, +1, site)
+            return None
+        if name == '_ZNSt15__exception_ptr13exception_ptr9_M_addrefEv':
+            obj = s.load(A(0), 8, 'na', site)
+            s.eptr_ref(obj, +1, site)
+            return None
+        if name == '_ZNSt15__exception_ptr13exception_ptr10_M_releaseEv':
+            this = A(0)
+            obj = s.load(this, 8, 'na', site)
+            s.eptr_ref(obj, -1, site)
+            s.store_(this, 8, 0, 'na', site)
+            return None
+        if name == '_ZNSt9exceptionD2Ev' or name == '_ZNSt9exceptionD1Ev':
             return None
         if name == 'vf_assert':
             c = A(0)
